@@ -62,6 +62,7 @@ impl Prop for C06 {
             queue: QueueCfg::Vec,
             controllers: 1,
             tree,
+            plain488: false,
         };
         let mut t = base_trace("C06", seed, run, "arity", cfg.clone());
         let tc = TreeCtx::new(&cfg.tree);
